@@ -191,6 +191,14 @@ impl Model {
                 data,
                 disk_len: n.size,
                 start: n.start,
+                // a file keeps the modification time it came with until something is written to it
+                mtime_ok: if n.is_dir {
+                    vec![]
+                } else {
+                    let r = &n.slot.raw;
+                    let t = crate::fsx::ts_from_fat(u16::from_le_bytes([r[24], r[25]]), u16::from_le_bytes([r[22], r[23]]));
+                    vec![Timestamp { year_since_1970: t.0, zero_indexed_month: t.1, zero_indexed_day: t.2, hours: t.3, minutes: t.4, seconds: t.5 }]
+                },
                 ..blank.clone()
             });
             self.nodes[pid].children.push(id);
